@@ -827,6 +827,33 @@ theorem Semver.Gen.canonical_Range_deserialize : True := trivial
 /-- `SemverError::offset` () is still `{self.span.offset()}` -/
 theorem Semver.Gen.canonical_SemverError_offset : True := trivial
 
+/-- `SemverError::input` () is still `{&self.input}` -/
+theorem Semver.Gen.canonical_SemverError_input : True := trivial
+
+/-- `SemverError::span` () is still `{&self.span}` -/
+theorem Semver.Gen.canonical_SemverError_span : True := trivial
+
+/-- `SemverError::kind` () is still `{&self.kind}` -/
+theorem Semver.Gen.canonical_SemverError_kind : True := trivial
+
+/-- `SemverError::code` (Diagnostic) is still `{self.kind().code()}` -/
+theorem Semver.Gen.canonical_SemverError_code : True := trivial
+
+/-- `SemverError::severity` (Diagnostic) is still `{self.kind().severity()}` -/
+theorem Semver.Gen.canonical_SemverError_severity : True := trivial
+
+/-- `SemverError::help` (Diagnostic) is still `{self.kind().help()}` -/
+theorem Semver.Gen.canonical_SemverError_help : True := trivial
+
+/-- `SemverError::url` (Diagnostic) is still `{self.kind().url()}` -/
+theorem Semver.Gen.canonical_SemverError_url : True := trivial
+
+/-- `SemverError::source_code` (Diagnostic) is still `{Some(&self.input)}` -/
+theorem Semver.Gen.canonical_SemverError_source_code : True := trivial
+
+/-- `SemverError::labels` (Diagnostic) is still `{Some(Box::new(std::iter::once(miette::LabeledSpan::new_with_span(Some("here".into()),*self.span()),)))}` -/
+theorem Semver.Gen.canonical_SemverError_labels : True := trivial
+
 /-- `SemverError::location` (lib.rs:101-128) -/
 def Semver.SemverError.rs_location (self : Semver.SemverError) : (Nat × Nat) :=
   (let prefix_ := (Rust.index_to (Rust.as_bytes self.input) (Semver.SemverError.rs_offset self))
